@@ -284,6 +284,31 @@ Theorem c11_query_in_transaction : forall st,
 Proof. intros [[]|n|]; reflexivity. Qed.
 Print Assumptions c11_query_in_transaction.
 
+(* ------------------------------------------------------------------ the breaker around conn queries *)
+
+(* ErrNotFound stays ErrNotFound under repetition: on one breaker-guarded conn, a run of ANY length of
+   queries that end in nil or in an error of the scanner (ErrNotFound on an empty result,
+   ErrNotMatchDestination, a Scan error - everything but a panic) is marked success call by call, so the
+   drop ratio stays 0: none of them can be rejected with ErrServiceUnavailable, each reports its own
+   error, and the history afterwards still lets every following query through *)
+Theorem c11_not_found_never_trips_breaker : forall owns s,
+  forallb query_marks_success owns = true -> bk_accepts s = bk_total s ->
+  forallb negb (fst (run_stream s owns)) = true /\
+  brk_may_reject (snd (run_stream s owns)) = false /\
+  bk_total (snd (run_stream s owns)) = bk_total s + List.length owns.
+Proof.
+  intros owns s H1 H2. destruct (run_stream_never_rejects owns s H1 H2) as [A [B C]].
+  split; [exact A|]. split; [apply brk_all_accepted_no_reject; exact B|exact C].
+Qed.
+Print Assumptions c11_not_found_never_trips_breaker.
+
+Example c11_not_found_stream_example :
+  query_marks_success (Err ENotFound) = true /\
+  snd (run_stream brk_fresh (repeat (Err ENotFound) 300)) = mkbrk 300 300 /\
+  (* whereas 300 failures would open the breaker *)
+  brk_may_reject (mkbrk 0 300) = true.
+Proof. repeat split; vm_compute; reflexivity. Qed.
+
 (* ------------------------------------------------------------------ non-vacuity *)
 Example c11_tx_examples :
   let sw := mkswitches false false true in
